@@ -260,7 +260,12 @@ def _pref(rng, real_t, lo, hi):
     """multiplier argument (prefactor, nu dt/dx^2, dt/dx, dt/2dx): uniform, but exactly zero one time in eight (inviscid run, coupling
     switched off, paused clock): the kernel must then still WRITE its (zero) contribution over whatever the output held"""
     v = rng.uniform(lo, hi)
-    return real_t(0.0) if rng.random() < 0.125 else real_t(v)
+    r = rng.random()
+    if r < 0.125:
+        return real_t(0.0)
+    if r < 0.2:
+        return real_t(v * 10.0 ** rng.uniform(-13, -8))  # tiny but NOT zero: "close to zero" shortcuts are wrong here
+    return real_t(v)
 
 
 def _ring_expect(name, ref, shape, reset, lead=0):
